@@ -1,5 +1,21 @@
+import sqlite3
+
 from flask_sqlalchemy import SQLAlchemy
+from sqlalchemy import event
+from sqlalchemy.engine import Engine
 
 from .base import Base
 
 db = SQLAlchemy(model_class=Base)
+
+@event.listens_for(Engine, "connect")
+def enforce_sqlite_foreign_keys(dbapi_connection, connection_record) -> None:
+    """
+    SQLite only checks foreign keys when asked to. Without the check, a row
+    that is added while the row it refers to is being deleted by another
+    request is left pointing at nothing.
+    """
+    if isinstance(dbapi_connection, sqlite3.Connection):
+        cursor = dbapi_connection.cursor()
+        cursor.execute("PRAGMA foreign_keys=ON")
+        cursor.close()
